@@ -625,6 +625,11 @@ def run(plan):
                 # KeyboardInterrupt as a loop shutdown (not injected there)
                 kinds_ = kinds_ + ["KeyboardInterrupt", "KeyboardInterrupt", "SystemExit"]
             pos = dict(pos, errno=ern.pick(kinds_))
+            if pos["kind"] in ("store", "zip_write") and pos["errno"] in ("ENOSPC", "EIO") \
+                    and ern.chance(0.35):
+                # a PERSISTENT condition (full disk, device gone): every later write of this
+                # save() fails as well - in-flight siblings, handler writes, retries
+                pos["sticky"] = True
         out = _execute(plan, pos, rec_counts=counts, refs=refs, keep_log=True)
         if out.get("fired") and pos.get("errno") in ("KeyboardInterrupt", "SystemExit"):
             bump(res["probes"], "fault_is_keyboard_interrupt")
